@@ -50,6 +50,9 @@ def looser_reg(pol):
         out.append(("origin-superset-of-many", mk(origin=[o for x in pol.origin for o in authcat.long_origin_list(x, 40)])))
     if pol.algs is not None:
         out.append(("algs-superset", mk(algs=list(pol.algs) + [a for a in (-7, -8, -36, -37, -38, -39, -257, -258, -259, -65535) if a not in pol.algs])))
+        # a list is a superset of another whatever its order and however often it names an algorithm (settings merged from several sources)
+        out.append(("algs-superset-with-repeats", mk(algs=list(pol.algs) + list(pol.algs) + [-7, -8, -36, -37, -38, -39, -257, -258, -259, -65535])))
+        out.append(("algs-superset-reordered", mk(algs=[a for a in (-65535, -259, -258, -257, -39, -38, -37, -36, -8, -7) if a not in pol.algs] + list(reversed(list(pol.algs))))))
     return out
 
 
@@ -58,7 +61,7 @@ def with_algs(pol, algs):
                           roots=pol.roots, builtin={f: v for f, v in pol.substitute.items() if v}, now=pol.now)
 
 
-ALG_CHAIN = [[], [-259], [-259, -8], [-259, -8, -7, -257], [-7, -8, -36, -37, -38, -39, -257, -258, -259, -65535]]
+ALG_CHAIN = [[], [-259], [-259, -8], [-259, -8, -7, -257], [-259, -8, -7, -257, -7, -259], [-7, -8, -36, -37, -38, -39, -257, -258, -259, -65535], [-7, -8, -36, -37, -38, -39, -257, -258, -259, -65535] * 2]
 
 
 def run(tier, seed):
@@ -86,7 +89,7 @@ def run(tier, seed):
             return impl.outcome(lambda: webauthn.verify_registration_response(credential=val, **kw), impl.pr_verified_reg)
 
     # ---------- authentication ----------
-    for label, pol, a, form, exp in allcat.auth_cases(rng, quick, kinds=["ES256-P256", "RS256", "EdDSA"] if quick else None):
+    for n_case, (label, pol, a, form, exp) in enumerate(allcat.auth_cases(rng, quick, kinds=["ES256-P256", "RS256", "EdDSA"] if quick else None)):
         d = a.as_dict()                       # ONE dict object, re-verified under every policy
         d0 = copy.deepcopy(d)
         base = va(pol, d)
@@ -102,12 +105,29 @@ def run(tier, seed):
             outs["record-memoryview-writable"] = va(pol, rec(wmv), wmv)
             win = lambda b: memoryview(b"\x00\x01" + bytes(b) + b"\xff")[2:-1]      # a window into a larger buffer
             outs["record-memoryview-window"] = va(pol, rec(win), win)
+            # pooled buffers: bytearrays that the caller refills as soon as the call has returned - the result must not be reading from them (re-read at the end of the check)
+            pool_ = []
+            def pooled(b):
+                # (raw_id stays bytes: the library hands `credential.raw_id` back as `credential_id` without copying - an echo of the caller's own object, noted in
+                #  this check's assumptions; every other field of the result is the library's own)
+                if b is a.cred_id:
+                    return b
+                pool_.append(bytearray(b))
+                return pool_[-1]
+            outs["record-bytearray"] = va(pol, rec(pooled), pooled)
+            for ba in pool_:
+                ba[:] = b"\xee" * len(ba)
             # the expected challenge as a non-contiguous view (every second byte of a larger buffer); the other binary inputs stay bytes
             kw_s = pol.kwargs()
             kw_s["expected_challenge"] = memoryview(bytes(b for x in kw_s["expected_challenge"] for b in (x, 0xAA)))[::2]
             outs["challenge-strided-memoryview"] = impl.outcome(lambda: webauthn.verify_authentication_response(credential=rec(bytes), **kw_s), impl.pr_verified_auth)
         for nm, tx in jsonmut.text_spellings(d0)[:: (3 if quick else 1)]:
             outs["text: " + nm] = va(pol, tx)
+        if label.startswith("baseline") or n_case % 5 == 0:
+            # values json.dumps / json.loads exchange beyond RFC 8259 (Infinity, -Infinity) and long numbers, in a member that is ignored: text and dict are the same credential
+            d_num = dict(d0, clientExtensionResults={"n": float("inf"), "m": [-float("inf"), 1e308, 10 ** 400, -0.0], "k": {"deep": [1.5e-300]}})
+            outs["dict with non-finite numbers in an ignored member"] = va(pol, copy.deepcopy(d_num))
+            outs["text with non-finite numbers in an ignored member"] = va(pol, json.dumps(d_num))
         if label.startswith("baseline"):
             # the text form has no size limit: padding and a large ignored member change nothing
             for n in fw.size_ladder():
@@ -155,12 +175,25 @@ def run(tier, seed):
             outs["record-memoryview-writable"] = vr(pol, rec(wmv), wmv)
             win = lambda b: memoryview(b"\x00\x01" + bytes(b) + b"\xff")[2:-1]
             outs["record-memoryview-window"] = vr(pol, rec(win), win)
+            pool_ = []
+            def pooled(b):
+                if b is reg.cred_id:
+                    return b
+                pool_.append(bytearray(b))
+                return pool_[-1]
+            outs["record-bytearray"] = vr(pol, rec(pooled), pooled)
+            for ba in pool_:
+                ba[:] = b"\xee" * len(ba)
             kw_s = pol.kwargs()
             kw_s["expected_challenge"] = memoryview(bytes(b for x in kw_s["expected_challenge"] for b in (x, 0xAA)))[::2]
             with impl.substituted(pol.substitute, pol.now):
                 outs["challenge-strided-memoryview"] = impl.outcome(lambda: webauthn.verify_registration_response(credential=rec(bytes), **kw_s), impl.pr_verified_reg)
         for nm, tx in jsonmut.text_spellings(d0)[:: (3 if quick else 1)]:
             outs["text: " + nm] = vr(pol, tx)
+        if label.startswith("baseline") or zlib.crc32(label.encode()) % 5 == 0:
+            d_num = dict(d0, clientExtensionResults={"n": float("inf"), "m": [-float("inf"), 1e308, 10 ** 400, -0.0]})
+            outs["dict with non-finite numbers in an ignored member"] = vr(pol, copy.deepcopy(d_num))
+            outs["text with non-finite numbers in an ignored member"] = vr(pol, json.dumps(d_num))
         if label.startswith("baseline/none") or label.startswith("baseline/packed"):
             for n in fw.size_ladder():
                 outs[f"text-padded-to-{n}"] = vr(pol, json.dumps(d0) + " " * n)
